@@ -87,7 +87,9 @@ Section Ranged.
                (if f_tag fd =? 0 then match x with VIface dyn _ => tag_ok (deftag_of S dyn) | _ => true end else true) &&
                val_ranged (f_ty fd) x && go fl' vl'
              | _, _ => true
-             end) (t_fields d) fs
+             end) (t_fields d) fs &&
+          (* the opaque payload [VInt op; VList trees] has no declared field for its trees *)
+          (if String.eqb (t_name d) "kmip.UnknownPayload" then forallb (val_ranged (TNamed "ttlv.Struct")) fs else true)
         | None => true
         end
       | _ => true
@@ -104,6 +106,10 @@ Section Ranged.
       val_ranged (f_ty fd) x && fields_ranged fl' vl'
     | _, _ => true
     end.
+
+  Definition struct_ranged (d : tdef) (fs : list value) : bool :=
+    fields_ranged (t_fields d) fs &&
+    (if String.eqb (t_name d) "kmip.UnknownPayload" then forallb (val_ranged (TNamed "ttlv.Struct")) fs else true).
 
   Definition is_enum_ty (t : ty) : bool := match t with TScalar (KEnum _) => true | _ => false end.
 
